@@ -30,6 +30,9 @@ def run(pid, tier, replay):
         if pid == "C12":
             from . import net_c12
             return net_c12.run(tier)
+        if pid == "C14":
+            from . import net_c14
+            return net_c14.run(tier)
         print(f"unknown property {pid}")
         return 2
     except C.BuildError as e:
